@@ -98,6 +98,11 @@ class ClassTr:
                 if any(k != 'int' for k, _ in args) or len(args) not in (2, 3):
                     fail(e, "format arguments")
                 return 'fmt', "(Fmt%d %s)" % (len(args), " ".join(t for _, t in args))
+            # sign prefix:  '-' + <formatted>
+            if isinstance(e.op, ast.Add) and isinstance(e.left, ast.Constant) and e.left.value == '-':
+                rk, rt = self.expr(e.right, env, binds)
+                if rk != 'fmt': fail(e, "'-' + non-format")
+                return 'fmt', "(FmtNeg %s)" % rt
             lk, lt = self.expr(e.left, env, binds)
             rk, rt = self.expr(e.right, env, binds)
             if lk != 'int' or rk != 'int':
@@ -118,6 +123,13 @@ class ClassTr:
                 if b2: fail(e, "effectful operand of 'and'")
                 parts.append(self.as_bool(k, t, x))
             return 'bool', "(" + " && ".join(parts) + ")"
+        if isinstance(e, ast.IfExp):
+            b0 = []
+            kt, tt = self.expr(e.test, env, b0)
+            ka, ta = self.expr(e.body, env, b0)
+            kb, tb = self.expr(e.orelse, env, b0)
+            if b0 or ka != kb: fail(e, "conditional expression")
+            return ka, "(if %s then %s else %s)" % (self.as_bool(kt, tt, e), ta, tb)
         if isinstance(e, ast.Compare):
             return self.compare(e, env, binds)
         if isinstance(e, ast.Call):
@@ -129,7 +141,8 @@ class ClassTr:
         if k == 'int': return "(truthy %s)" % t
         fail(node, "truth value of kind %s" % k)
 
-    CMP = {ast.Eq: 'Z.eqb', ast.Lt: 'Z.ltb', ast.LtE: 'Z.leb', ast.Gt: 'Z.gtb', ast.GtE: 'Z.geb'}
+    CMP = {ast.Eq: 'Z.eqb', ast.Lt: 'Z.ltb', ast.LtE: 'Z.leb'}
+    CMPSWAP = {ast.Gt: 'Z.ltb', ast.GtE: 'Z.leb'}     # a > b  is emitted as  b <? a  (lia-friendly)
 
     def compare(self, e, env, binds):
         operands = [e.left] + list(e.comparators)
@@ -159,6 +172,8 @@ class ClassTr:
                     parts.append("(negb (Z.eqb %s %s))" % (ta, tb))
                 elif type(op) in self.CMP:
                     parts.append("(%s %s %s)" % (self.CMP[type(op)], ta, tb))
+                elif type(op) in self.CMPSWAP:
+                    parts.append("(%s %s %s)" % (self.CMPSWAP[type(op)], tb, ta))
                 else:
                     fail(e, "comparison operator")
             else:
@@ -166,7 +181,7 @@ class ClassTr:
         return 'bool', parts[0] if len(parts) == 1 else "(" + " && ".join(parts) + ")"
 
     INTDUNDER = {'__eq__': 'Z.eqb %s %s', '__ne__': 'negb (Z.eqb %s %s)', '__lt__': 'Z.ltb %s %s',
-                 '__le__': 'Z.leb %s %s', '__gt__': 'Z.gtb %s %s', '__ge__': 'Z.geb %s %s'}
+                 '__le__': 'Z.leb %s %s', '__gt__': 'Z.ltb %(b)s %(a)s', '__ge__': 'Z.leb %(b)s %(a)s'}
 
     def call(self, e, env, binds):
         f = e.func
@@ -205,7 +220,8 @@ class ClassTr:
             ka, ta = self.expr(f.value, env, binds)
             kb, tb = self.expr(e.args[0], env, binds)
             if ka != 'int' or kb != 'int': fail(e, "int dunder")
-            return 'bool', "(" + self.INTDUNDER[f.attr] % (ta, tb) + ")"
+            pat = self.INTDUNDER[f.attr]
+            return 'bool', "(" + (pat % dict(a=ta, b=tb) if '%(a)s' in pat else pat % (ta, tb)) + ")"
         # self.__cmp__(other)
         if isinstance(f, ast.Attribute) and f.attr == '__cmp__' and isinstance(f.value, ast.Name) \
            and f.value.id == 'self' and len(e.args) == 1:
